@@ -28,6 +28,7 @@ DUP = "dup"                # executed once, reply delivered twice in the same in
 DUPLATE = "dup_late"       # executed once, reply delivered after LAT and again after 1.25 T
 RETRY82 = "rc_0x82"        # reply carries the retryable "bad checksum" code (not executed)
 RETRY8D = "rc_0x8d"        # reply carries the retryable "p2p busy" code (not executed)
+RETRY8D_LATE = "rc_0x8d_late"   # the retryable "p2p busy" reply, delayed to just past one timeout + one round trip
 FATAL = "fatal"            # reply carries a fatal return code (not executed)
 
 RC_OK = 0x80
@@ -58,6 +59,7 @@ class SimNet(object):
         self.max_steps = max_steps
         self.truncate = truncate
         self.overlong = []         # (datagram length, recv length) of replies longer than recv()'s argument
+        self.late = 0.0            # scheduling latency: select() returns this long after a timeout it slept for
         self.n_sockets = 0
         self.n_sent = 0
         self.visible = 0.0         # time of the last return of select: datagrams arrived by then were offered
@@ -77,10 +79,10 @@ class SimNet(object):
                 raise Abort("select without timeout and nothing in flight")
             timeout = self.queue[0][0] - self.now
         if self.queue and self.queue[0][0] <= self.now + timeout:
-            self.now = max(self.now, self.queue[0][0])
+            self.now = max(self.now, self.queue[0][0]) + self.late      # (late: woken that long after the datagram arrived)
             self.visible = self.now
             return list(r), [], []
-        self.now += max(timeout, 0.0)
+        self.now += max(timeout, 0.0) + (self.late if timeout > 0 else 0.0)     # (late: the process is woken that much after its deadline)
         self.visible = self.now
         return [], [], []
 
@@ -175,6 +177,9 @@ def outcome_replies(outcome, timeout, make_reply, fatal_code=0x83, lat=LAT):
         return False, [(lat, 0x8d)]
     if outcome == FATAL:
         return False, [(lat, fatal_code)]
+    if outcome == RETRY8D_LATE:
+        # the "busy" answer to this transmission is itself late: it arrives just after the OK answer to the retransmission
+        return False, [(timeout + 0.002 + lat + 0.0005, 0x8d)]      # (0.002: the wake-up latency of the family that uses this outcome)
     raise ValueError(outcome)
 
 
